@@ -2,7 +2,7 @@ use c04::tree::{Case, Form, IdForm, Incoming, Item, Node, RngKind};
 use vcore::proptest::prelude::*;
 use vcore::Level;
 
-const RULE: &str = "a case is a span tree as data (<=24 span nodes, nesting depth <=6): every node has a form (attribute on sync fn / async fn, new_span! with Frame::call / Frame::enter / Frame::in_future, guard: parameter sync / async, when: parameter, ok_lvl/err_lvl Result-returning sync / async fn, and four hand-off forms where the frame returned by new_span! itself is moved to a fresh thread and entered there by call / in_fn / enter (guard completed there or back on the parent inside the frame) or is polled through in_future alternately on fresh threads and the awaiting thread), an enabled flag (disabled = rejected by the runtime filter through its module, or by `when`), and a body of child spans, emit! events, SpanCtxt::current checks, yields, thread hops (with or without a carried Frame::current, entered by call or in_future as the very first act of the fresh thread, which afterwards goes on with unrelated work of its own: checks, events, root spans) and joins of async tasks polled by a generated schedule; optionally incoming trace/span ids are pushed before the root as typed values, lower/upper-case hex strings or integers; the rng is a non-repeating counter (or yields nothing). It is interpreted by fixed macro call sites on a private runtime and judged relationally from the recorded events. Non-trivial = span nesting depth >=3, or a disabled node with an enabled descendant, or an async join, or a thread hop, or incoming ids given as hex strings.";
+const RULE: &str = "a case is a span tree as data (<=24 span nodes, nesting depth <=6): every node has a form (attribute on sync fn / async fn, new_span! with Frame::call / Frame::enter / Frame::in_future, guard: parameter sync / async, when: parameter, ok_lvl/err_lvl Result-returning sync / async fn, and four hand-off forms where the frame returned by new_span! itself is moved to a fresh thread and entered there by call / in_fn / enter (guard completed there or back on the parent inside the frame) or is polled through in_future alternately on fresh threads and the awaiting thread), an enabled flag (disabled = rejected by the runtime filter through its module, or by `when`), and a body of child spans, emit! events, SpanCtxt::current checks, yields, thread hops (with or without a carried Frame::current, entered by call or in_future as the very first act of the fresh thread, which afterwards goes on with unrelated work of its own: checks, events, root spans) planned panics (quiet resume_unwind) that leave any of these scopes by unwinding up to a catch_unwind (explicit Catch item, in async code around every poll; or the top of the hop / hand-off thread) after which the same thread is used on, and joins of async tasks polled by a generated schedule; optionally incoming trace/span ids are pushed before the root as typed values, lower/upper-case hex strings or integers; the rng is a non-repeating counter (or yields nothing). It is interpreted by fixed macro call sites on a private runtime and judged relationally from the recorded events. Non-trivial = span nesting depth >=3, or a disabled node with an enabled descendant, or an async join, or a thread hop, or incoming ids given as hex strings.";
 
 const ASSUMPTIONS: [&str; 6] = [
     "the oracle never predicts which id the rng hands out: each enabled span's ids are read from its own span event (identified by a unique module name) and only the relations stated by the property are demanded",
@@ -33,7 +33,7 @@ fn form() -> impl Strategy<Value = Form> {
 }
 
 fn leaf() -> impl Strategy<Value = Item> {
-    prop_oneof![3 => Just(Item::Event), 2 => Just(Item::Check), 2 => Just(Item::Yield)]
+    prop_oneof![3 => Just(Item::Event), 2 => Just(Item::Check), 2 => Just(Item::Yield), 1 => Just(Item::Panic)]
 }
 
 /// Bodies by remaining depth: explicit recursion (not `prop_recursive`) so that the branching factor
@@ -56,6 +56,7 @@ fn body(depth_left: u32) -> BoxedStrategy<Vec<Item>> {
     let item = prop_oneof![
         5 => leaf(),
         8 => (form(), prop::bool::weighted(0.75), inner.clone(), after_items()).prop_map(|(form, enabled, items, after)| Item::Span(Node { after: if form.is_sync_handoff() { after } else { Vec::new() }, form, enabled, items })),
+        2 => inner.clone().prop_map(|items| Item::Catch { items }),
         1 => (prop::bool::weighted(0.7), any::<bool>(), inner.clone(), after_items()).prop_map(|(carry, fut, items, after)| Item::Hop { carry, fut, items, after }),
         1 => (any::<bool>(), prop::bool::weighted(0.4), prop::collection::vec(inner, 1..4), prop::collection::vec(0u8..16, 0..10))
             .prop_map(|(carry, migrate, tasks, schedule)| Item::Join { carry, migrate, tasks, schedule }),
@@ -64,7 +65,9 @@ fn body(depth_left: u32) -> BoxedStrategy<Vec<Item>> {
 }
 
 /// Constructive bound on the number of span nodes: nodes beyond the budget are replaced by an event.
-fn limit(items: &mut Vec<Item>, budget: &mut usize, depth: usize) {
+/// … and on planned panics: one that nothing would catch (`caught` false: no `Catch` around it within the
+/// same join task / `after` list, and not inside a hop or hand-off body, whose thread catches it) becomes an event.
+fn limit(items: &mut Vec<Item>, budget: &mut usize, depth: usize, caught: bool) {
     for it in items.iter_mut() {
         match it {
             Item::Span(n) => {
@@ -72,22 +75,50 @@ fn limit(items: &mut Vec<Item>, budget: &mut usize, depth: usize) {
                     *it = Item::Event;
                 } else {
                     *budget -= 1;
-                    limit(&mut n.items, budget, depth + 1);
-                    limit(&mut n.after, budget, 0);
+                    limit(&mut n.items, budget, depth + 1, caught || n.form.is_handoff());
+                    limit(&mut n.after, budget, 0, false);
                 }
             }
+            Item::Panic if !caught => *it = Item::Event,
+            Item::Catch { items } => limit(items, budget, depth, true),
             Item::Hop { items, after, .. } => {
-                limit(items, budget, depth);
-                limit(after, budget, 0);
+                limit(items, budget, depth, true);
+                limit(after, budget, 0, false);
             }
             Item::Join { tasks, .. } => {
                 for t in tasks {
-                    limit(t, budget, depth)
+                    limit(t, budget, depth, false)
                 }
             }
             _ => {}
         }
     }
+}
+
+/// A thread that has caught a panic and is used on. Either `Catch{ dying span }` in front of the rest of the
+/// program (later top-level spans are unrelated roots), or an enclosing enabled span that catches the
+/// panic of a child and then goes on emitting an event and starting a sibling span.
+fn panic_prologue() -> impl Strategy<Value = Option<Item>> {
+    fn dying_span() -> BoxedStrategy<Item> {
+        (form(), prop::bool::weighted(0.85), prop::collection::vec(leaf(), 0..2))
+            .prop_map(|(form, enabled, mut items)| {
+                items.push(Item::Panic);
+                Item::Span(Node { form, enabled, items, after: Vec::new() })
+            })
+            .boxed()
+    }
+    let plain_span = || (form(), prop::bool::weighted(0.85), prop::collection::vec(leaf(), 0..2)).prop_map(|(form, enabled, items)| Item::Span(Node { form, enabled, items, after: Vec::new() }));
+    let scope = prop_oneof![
+        // outermost span dies
+        3 => dying_span().prop_map(|d| Item::Catch { items: vec![d] }),
+        // a nested one dies, the panic leaves two spans
+        1 => (form(), dying_span()).prop_map(|(form, d)| Item::Catch { items: vec![Item::Span(Node { form, enabled: true, items: vec![Item::Check, d], after: Vec::new() })] }),
+        // the enclosing span catches its child's panic and goes on
+        4 => (form(), dying_span(), plain_span()).prop_map(|(form, d, sibling)| {
+            Item::Span(Node { form, enabled: true, items: vec![Item::Catch { items: vec![d] }, Item::Event, sibling, Item::Check], after: Vec::new() })
+        }),
+    ];
+    prop_oneof![2 => Just(None), 1 => scope.prop_map(Some)]
 }
 
 fn trace_value() -> impl Strategy<Value = u128> {
@@ -117,9 +148,12 @@ fn case() -> impl Strategy<Value = Case> {
             .prop_map(|(trace, span, form)| Some(Incoming { trace: ((trace >> 64) as u64, trace as u64), span, form })),
     ];
     let rng = prop_oneof![12 => any::<u64>().prop_map(RngKind::Counter), 1 => Just(RngKind::Empty)];
-    (rng, incoming, body(7)).prop_map(|(rng, incoming, mut items)| {
+    (rng, incoming, panic_prologue(), body(7)).prop_map(|(rng, incoming, prologue, mut items)| {
+        if let Some(p) = prologue {
+            items.insert(0, p);
+        }
         let mut budget = 24;
-        limit(&mut items, &mut budget, 0);
+        limit(&mut items, &mut budget, 0, false);
         let incoming = if rng == RngKind::Empty { None } else { incoming };
         Case { rng, incoming, items }
     })
@@ -135,6 +169,12 @@ fn main() {
         s.require("async-join-polls-migrate-threads", 50);
         s.require("thread-hop-carried-frame", 100);
         s.require("integer-ids", 100);
+        s.require("exit:panic-sync-call", 200);
+        s.require("exit:panic-async", 200);
+        s.require("exit:panic-enter-guard", 50);
+        s.require("after-panic:sibling-span", 200);
+        s.require("after-panic:event-in-enclosing-span", 200);
+        s.require("after-panic:new-root-trace", 200);
         s.require("worker-thread-root-span-after-carried-frame", 100);
         s.require("own-frame-handoff-disabled-with-descendants", 100);
         s.require("own-frame-handoff-enabled-with-descendants", 100);
